@@ -924,7 +924,7 @@ def section_parse(ctx) -> None:
              b'AUTHENTICATE "PLAIN" "eA=="\r\n', b'CHECKSCRIPT {5+}\r\nkeep;\r\n',
              b'DELETESCRIPT "\xc3\xa9"\r\n', b'LISTSCRIPTS\r\n', b'logout\r\n']
     stream = []          # (buffer, Gallina term for it or None)
-    nb = ctx.scale(2, len(bases))
+    nb = ctx.scale(2, 6)
     for bi, base in enumerate(bases[:nb]):           # every byte value at every position
         pool_add(base, force=True)
         bn = POOL[base]
@@ -958,7 +958,7 @@ def section_parse(ctx) -> None:
         stream.append((b'CHECKSCRIPT {%d+}\r\n' % (n + 1) + b'x' * n + b'\r\n', None))
     names, datas = NAMES + BAD_NAMES, GOOD_SCRIPTS + BAD_SCRIPTS
     n_sweep = len(stream)
-    for _ in range(ctx.scale(1000, 12000)):
+    for _ in range(ctx.scale(1000, 5000)):
         ev = gen_event(rng, 1, names, datas)
         buf = bytearray(ev['buf'])
         if rng.random() < 0.3:        # mutate
@@ -1030,7 +1030,7 @@ def section_filterset(ctx) -> None:
              ('get', 'a'), ('get_active',), ('get_all',), ('delete', 'b')]
     seqs = [list(t) for n in (1, 2, 3) for t in itertools.product(small, repeat=n)] \
         if not ctx.quick else [list(t) for n in (1, 2) for t in itertools.product(small, repeat=n)]
-    seqs += [rnd_ops(rng.randint(3, 14)) for _ in range(ctx.scale(600, 8000))]
+    seqs += [rnd_ops(rng.randint(3, 14)) for _ in range(ctx.scale(600, 3000))]
 
     async def run_all():
         cases = []
@@ -1079,6 +1079,8 @@ ALPHABET = [
     ('RENab', lambda k: _fixed(k, 'RENAME', (b'ab', b'a'), b'RENAMESCRIPT {2+}\r\nab "a"\r\n')),
     ('UNAUTH', lambda k: _fixed(k, 'UNAUTH', (), b'UNAUTHENTICATE\r\n')),
     ('CHECK', lambda k: _fixed(k, 'CHECK', (b'kee',), b'CHECKSCRIPT "kee"\r\n')),
+    ('CHECKok', lambda k: _fixed(k, 'CHECK', (b'keep;',), b'CHECKSCRIPT {5+}\r\nkeep;\r\n')),
+    ('HAVE', lambda k: _fixed(k, 'HAVESPACE', (b'a', 5), b'HAVESPACE "a" 5\r\n')),
 ]
 
 
@@ -1087,7 +1089,12 @@ def section_programs(ctx) -> None:
     progs = []
     # (1) all sequences over the small alphabet on two connections: connection 0
     #     starts unauthenticated, connection 1 is first logged in as u1
-    letters = [(k, nm, mk) for k in (0, 1) for nm, mk in ALPHABET]
+    # connection 0 starts unauthenticated (the gate: a representative of every kind of script
+    # command, and the ways in and out), connection 1 is logged in as u1 first (the map)
+    on0 = ('AUTH', 'AUTH2', 'PUTa', 'GETa', 'LIST', 'ACTa', 'DELa', 'UNAUTH')
+    on1 = ('PUTa', 'PUTab', 'GETa', 'LIST', 'ACTa', 'ACT0', 'DELa', 'RENa', 'RENab', 'UNAUTH',
+           'AUTH2', 'CHECK')
+    letters = [(k, nm, mk) for k, use in ((0, on0), (1, on1)) for nm, mk in ALPHABET if nm in use]
     amk = dict(ALPHABET)
     for _nm, mk in ALPHABET:
         pool_add(mk(0)['buf'], force=True)
@@ -1099,6 +1106,13 @@ def section_programs(ctx) -> None:
         for n in range(1, maxlen + 1):
             for t in itertools.product(letters, repeat=n):
                 progs.append(('default', 2, pre + [mk(k) for k, _nm, mk in t], ('u1', 'u2')))
+    # the gate on its own: every command of the alphabet on the unauthenticated connection,
+    # fresh, after a failed login, and after login + UNAUTHENTICATE
+    for _nm, mk in ALPHABET:
+        for pre0 in ([], [gen_auth(None, 0, 'u1', 'badpw')],
+                     [gen_auth(None, 0, 'u1', 'plain'), amk['UNAUTH'](0)]):
+            for pre in starts:
+                progs.append(('default', 2, pre + pre0 + [mk(0), amk['LIST'](1)], ('u1', 'u2')))
     n_exh = len(progs)
     if ctx.quick:      # a sample of the length-3 sequences
         for _ in range(300):
@@ -1108,7 +1122,7 @@ def section_programs(ctx) -> None:
     ctx.extra['exhaustive_sequences'] = {'alphabet': len(letters), 'max_len': maxlen,
                                          'starting_stores': 2, 'count': n_exh}
     # (2) random programs
-    for _ in range(ctx.scale(400, 6000)):
+    for _ in range(ctx.scale(400, 3000)):
         cfg_name = rng.choice(['default', 'default', 'small', 'nolimit', 'tls'])
         nconns = rng.choice([2, 3, 3, 4])
         progs.append((cfg_name, nconns, gen_program(rng, nconns, rng.randint(6, 22), cfg_name),
@@ -1184,6 +1198,15 @@ def run(ctx) -> None:
     import traceback
     from concurrent.futures import ThreadPoolExecutor
     import os
+    # import everything the sections use before the threads start (concurrent first
+    # imports of pymap / pysasl modules race)
+    async def _warm():
+        w = await World('default').start(1)
+        await w.close()
+    asyncio.run(_warm())
+    impl_parse(b'NOOP\r\n')
+    compiles(b'keep;')
+    from pymap.backend.dict.filter import FilterSet  # noqa: F401
     only = [x for x in os.environ.get('VERIF_C19_SECTIONS', '').split(',') if x]   # debugging aid
     sections = [f for f in (section_programs, section_parse, section_filterset)
                 if not only or f.__name__[len('section_'):] in only]
